@@ -315,3 +315,50 @@ def py_match(t, s, pos=0):
             return loop(i, 0)
         raise AssertionError(kind)
     return m(t, pos, lambda j: j)
+
+
+class DagEmitter:
+    """Emits a set of regex trees as DATA: a class table, a node table in
+    topological order (children before parents, maximal sharing) and root
+    indexes.  Base/RegexDag.v rebuilds the `re` values from it; facts about all
+    patterns then follow from facts about the (small) class table."""
+
+    def __init__(self):
+        self.cls_index = {}
+        self.node_index = {}
+        self.nodes = []
+
+    def _cls(self, ranges):
+        if ranges not in self.cls_index:
+            self.cls_index[ranges] = len(self.cls_index)
+        return self.cls_index[ranges]
+
+    def add(self, t):
+        if t in self.node_index:
+            return self.node_index[t]
+        k = t[0]
+        if k == 'eps':
+            n = 'NEps'
+        elif k == 'eol':
+            n = 'NEol'
+        elif k == 'chr':
+            n = 'NChr %d' % self._cls(t[1])
+        elif k in ('cat', 'alt'):
+            a, b = self.add(t[1]), self.add(t[2])
+            n = '%s %d %d' % ('NCat' if k == 'cat' else 'NAlt', a, b)
+        elif k == 'rep':
+            a = self.add(t[4])
+            hi = 'None' if t[3] is None else '(Some %d)' % t[3]
+            n = 'NRep %s %d %s %d' % ('true' if t[1] else 'false', t[2], hi, a)
+        else:
+            raise AssertionError(k)
+        self.node_index[t] = len(self.nodes)
+        self.nodes.append(n)
+        return self.node_index[t]
+
+    def text(self, prefix):
+        cls = sorted(self.cls_index.items(), key=lambda kv: kv[1])
+        out = ['Definition %s_classes : list cls :=\n  [%s]%%N.\n' % (
+            prefix, ';\n   '.join('[%s]' % '; '.join('(%d, %d)' % r for r in ranges) for ranges, _ in cls))]
+        out.append('Definition %s_nodes : list node :=\n  [%s]%%nat.\n' % (prefix, ';\n   '.join(self.nodes)))
+        return ''.join(out)
